@@ -107,6 +107,8 @@ func c20Exec(op string) string {
 			chk("j2x.JsonNewXml", errEq(enx1, enx2) && (enx2 != nil || bytes.Equal(nx1, nx2)))
 		} else if en2 != nil {
 			chk("j2x.JsonNewJson", en1 != nil)
+			_, enx1 := j2x.JsonNewXml(jtxt, pairs...)
+			chk("j2x.JsonNewXml", enx1 != nil)
 		}
 		l1, _ := j2x.JsonLeafNodes(jtxt)
 		chk("j2x.JsonLeafNodes", leafDigest(l1) == leafDigest(mj.LeafNodes()))
@@ -164,6 +166,11 @@ func c20Exec(op string) string {
 			j1, ej1 := x2j.XmlNewJson(doc, pairs...)
 			j2, ej2 := nm.Json()
 			chk("x2j.XmlNewJson", errEq(ej1, ej2) && bytes.Equal(j1, j2))
+		} else if en2 != nil {
+			_, en1 := x2j.XmlNewXml(doc, pairs...)
+			chk("x2j.XmlNewXml", en1 != nil)
+			_, ej1 := x2j.XmlNewJson(doc, pairs...)
+			chk("x2j.XmlNewJson", ej1 != nil)
 		}
 		l1, _ := x2j.XmlLeafNodes(doc)
 		chk("x2j.XmlLeafNodes", leafDigest(l1) == leafDigest(mx.LeafNodes()))
@@ -359,6 +366,10 @@ func c20Gen(r *Rng, n int) []string {
 		pairs := []string{r.DerivedPath(mx, false, 3) + ":" + r.Pick([]string{"x", "y.z", "p"})}
 		if r.P(30) {
 			pairs = append(pairs, r.DerivedPath(mx, false, 2)+":"+r.Pick([]string{"q", "r.s"}))
+		}
+		if r.P(15) {
+			// a malformed pair: every wrapper must fail as Map.NewMap does
+			pairs = append(pairs, r.Pick([]string{"a:", ":z", "a:b:c", "a:b.*", "a:b[0]", "a.*", "k[0]"}))
 		}
 		segs := strings.Split(strings.TrimSuffix(path, "."), ".")
 		nv := map[string]interface{}{segs[len(segs)-1]: "NEW"}
